@@ -207,3 +207,13 @@ def r5_copy(ctx):
 
 
 RULES = [r1_detach, r2_forwarding, r2c_clone, r3_nodes, r5_copy]
+
+
+def r6_vertex_numbering(ctx):
+    ctx.rule("C16.r6", "graph domains: the answer of a binary operation does not depend on how each operand numbers its vertices - a vertex "
+             "id of one operand is never used to index the other operand's graph", floor=10)
+    from . import _graphns
+    _graphns.vertex_namespace_rule(ctx, "C16.r6")
+
+
+RULES += [r6_vertex_numbering]
